@@ -1,0 +1,16 @@
+//go:build verif
+
+package epochcheck
+
+// Machine-checked contracts for /verif (read as text by the VC generator; no code).
+//
+// curValidators / curEpoch: what the epoch reader reports (the current epoch and its validators).
+//@ ghost curValidators *pos.Validators
+//@ ghost curEpoch int
+//@
+//@ iface Reader.GetEpochValidators
+//@   ensures result0 == curValidators && result1 == curEpoch
+//@
+//@ func (*Checker).Validate
+//@   requires v != nil && v.reader != nil && e != nil && curValidators != nil
+//@   ensures  (result == nil) == (e.Epoch() == curEpoch && has(curValidators.values, e.Creator()))
